@@ -44,7 +44,7 @@ pub fn gen(rng: &mut Rng) -> Sched2Case {
 		ticks: rng.below(3),
 		warm: rng.usize_below(2),
 		callbacks: rng.urange(2, 6),
-		switch_prob: *rng.pick(&[0.1, 0.3, 0.6, 0.9]),
+		switch_prob: *rng.pick(&[0.03, 0.1, 0.3, 0.6, 0.9]),
 		on_track: rng.chance(0.4),
 		stop_race: rng.chance(0.4),
 	}
